@@ -395,7 +395,7 @@ func (s *Sim) park(t *Task, kind, desc string, enabled bool) resumeMsg {
 	t.kind = kind
 	t.desc = desc
 	t.enabled = enabled
-	t.stamp = s.nextSeq()
+	t.stamp = 0 // assigned by the scheduler in deterministic order (parkedTasks)
 	s.mu.Unlock()
 	msg := <-t.resume
 	return msg
@@ -456,6 +456,13 @@ func (s *Sim) parkedTasks() []*Task {
 		}
 		return out[i].stamp < out[j].stamp
 	})
+	// goroutines that parked since the last step did so in racy order: stamp them now,
+	// on the scheduler goroutine, in id order.
+	for _, t := range out {
+		if t.stamp == 0 {
+			t.stamp = s.nextSeq()
+		}
+	}
 	return out
 }
 
